@@ -161,6 +161,39 @@ func TestChainModeLaggedFinalize(t *testing.T) {
 		finalize := func(upto int) {
 			for finalized < upto {
 				b := live[finalized]
+				// every crash prefix of this finalisation, on copies of the store: earlier roots stay readable, and the
+				// round re-executed from the store alone and re-saved is complete with the same root
+				pre := rounds.NewDir()
+				grocksdb.CloneStore(dir, pre)
+				for n := 0; n < 2; n++ {
+					cdir := rounds.NewDir()
+					cs := grocksdb.CloneStore(pre, cdir)
+					cs.SetCrashAfter(n)
+					_, serr := rounds.Save(mptkit.Reopen(cdir), b)
+					cs.ResetFaults()
+					if serr == nil {
+						rt.Fatalf("%s: finalisation of round %d reported success although write %d was refused", desc, finalized, n)
+					}
+					for _, sv := range saved {
+						if err := rounds.CheckReadable(cdir, sv); err != nil {
+							rt.Fatalf("%s: crash while finalising round %d after %d writes damaged an earlier root: %v", desc, finalized, n, err)
+						}
+					}
+					var prevRoot []byte
+					if finalized > 0 {
+						prevRoot = saved[finalized-1].Root
+					}
+					root2, _, err := rounds.ExecRound(cdir, prevRoot, b.Rd)
+					if err != nil || !bytes.Equal(root2, b.Trie.GetRoot()) {
+						rt.Fatalf("%s: round %d re-executed from the store after a crash at write %d: root %x err %v, live root %x", desc, finalized, n, root2, err, b.Trie.GetRoot())
+					}
+					if err := rounds.CheckReadable(cdir, rounds.Saved{Version: b.Rd.Version, Root: root2, Model: s.Models[finalized]}); err != nil {
+						rt.Fatalf("%s: round %d after crash at write %d, restart, re-execute and re-save: %v", desc, finalized, n, err)
+					}
+					mptkit.DropDir(cdir)
+					ev.Case(fmt.Sprintf("%s|fin%d|%d", desc, finalized, n), len(s.Rounds) >= 2 && finalized >= 1, "chain-mode-crash-in-finalise")
+				}
+				mptkit.DropDir(pre)
 				dead, err := rounds.Finalize(pndb, b)
 				if err != nil {
 					rt.Fatalf("%s: finalize round %d: %v", desc, finalized, err)
